@@ -16,7 +16,7 @@ PLAN = {
     'C09': dict(level='proof', engines=['chordnative', 'keynative']),
     'C10': dict(level='proof', engines=['chordre']),
     'C11': dict(level='proof', engines=['chordnative']),
-    'C13': dict(level='proof', engines=[]),
+    'C13': dict(level='proof', engines=['intervalsnative']),
     'C14': dict(level='proof', engines=[]),
     'C15': dict(level='proof', engines=['frames'], assumptions=['A3', 'A4', 'A5', 'A6', 'A7']),
 }
